@@ -105,6 +105,12 @@ class Rec:
             raise OutOfSubset(f'iteration over opaque {self!r}')
         return iter(self.iterable)
 
+    def kvc_format(self, interp, spec):
+        return repr(self)
+
+    def kvc_str(self, interp):
+        return repr(self)
+
     def kvc_binop(self, interp, op, other, reflected):
         l, r = (other, self) if reflected else (self, other)
         interp.ctx.event('binop', op, l, r)
